@@ -248,6 +248,16 @@ def check_decoders(ctx, n, rng):
         "seq_len_long": b"\x30" + R.enc_len(len(ri + si) + 1) + ri + si,
     }
     high_bit_length_octets(ctx, n, rng, {})
+    # the same valid signature in the text encodings signatures travel in (hex, base64, PEM armour): the decoders take the binary
+    # encodings and nothing else - a decoder that "helpfully" unwraps them gives every (r, s) many accepted spellings
+    import base64 as _b64
+    import binascii as _ba
+    for nm_, blob_ in (("raw", good), ("der", canon)):
+        texts = {"hex_lower": _ba.hexlify(blob_), "hex_upper": _ba.hexlify(blob_).upper(), "base64": _b64.b64encode(blob_), "base64_nl": _b64.encodebytes(blob_),
+                 "pem_signature": R.pem(blob_, "ECDSA SIGNATURE"), "pem_generic": R.pem(blob_, "SIGNATURE").rstrip(b"\n"), "ascii_zero_fill": b"0" * (2 * len(blob_))}
+        for tn_, tx_ in texts.items():
+            expect_reject(ctx, "reject.text_encoding", "%s|%s|string" % (nm_, tn_), util.sigdecode_string, tx_, n, util.MalformedSignature, "text_encoded_signature_to_raw_decoder", "sigdecode_string with the %s form of a %s signature" % (tn_, nm_))
+            expect_reject(ctx, "reject.text_encoding", "%s|%s|der" % (nm_, tn_), util.sigdecode_der, tx_, n, (der.UnexpectedDER, util.MalformedSignature), "text_encoded_signature_to_der_decoder", "sigdecode_der with the %s form of a %s signature" % (tn_, nm_))
     for kind, data in cases.items():
         if data is None:
             continue
